@@ -52,14 +52,23 @@ func (p *Program) Globals() *GlobalModel {
 		ps := NewPathSim(p)
 		ps.trackGlobals = true
 		ps.maxPaths = 64
+		ps.maxVisits = 40 // loops over literal lists (a set built from its members) run to their end: their tests are constant
 		// a variable initialised with the result of a constructor of function values (a generic comparator builder, …):
 		// the constructor is interpreted so that the closure it returns is known
 		ps.Inline = func(c *ssa.Function) bool {
 			if !p.InModule(c) || c.Signature.Results().Len() != 1 {
 				return false
 			}
-			_, isFn := c.Signature.Results().At(0).Type().Underlying().(*types.Signature)
-			return isFn
+			if _, isFn := c.Signature.Results().At(0).Type().Underlying().(*types.Signature); isFn {
+				return true
+			}
+			// … or of a plain number computed from constants (a bit set built from its members): unexported, no receiver
+			if bt, isB := c.Signature.Results().At(0).Type().Underlying().(*types.Basic); isB && bt.Info()&types.IsInteger != 0 {
+				if o := c.Object(); o != nil && !o.Exported() && c.Signature.Recv() == nil && !recursive(p, c) {
+					return true
+				}
+			}
+			return false
 		}
 		// keep the accumulated state of the previous package
 		prev := gm.st
